@@ -622,5 +622,5 @@ PARTS = [Part("histories", strategy=lambda tier: histories(tier), run=run_histor
 #   M14 default (infinite) bid size not stored                         caught
 #   M15 discontinuation ignored for a never-quoted book                caught
 # Note: st.one_of() de-duplicates repeated strategy objects; op weights use distinct .map wrappers.
-# Unchanged tree: exit 0 for VERIF_SEED=1..5 (6000 histories, ~35 s on an idle 16-core box, 50-90 s when
-# the machine is shared), about 48% of the histories satisfy the non-trivial rule.
+# Unchanged tree: exit 0 for VERIF_SEED=1..5 (6000 histories, about 290 CPU-seconds: 33 s wall measured on a lightly
+# loaded box, 64-93 s measured with load average 45 on 16 cores), 44-48% of the histories satisfy the non-trivial rule.
